@@ -1082,8 +1082,16 @@ func (c *Context) Exp(d, x *Decimal) (Condition, error) {
 	// if abs(x) <= setexp(.9, -currentprecision); then result 1
 	tmp2.SetFinite(9, int32(-cp)-1)
 	if tmp1.Cmp(&tmp2) <= 0 {
-		d.Set(decimalOne)
-		return c.goError(res)
+		// e**x differs from 1 by less than a unit of the working precision,
+		// but it does differ, on the side of x: 1 with a sticky digit lets the
+		// context's rounding mode, and its test for a subnormal result, see
+		// which side (Exp(-0.09) at Precision 1 with MinExponent 0 is below
+		// 10**MinExponent, and 0.9 when rounded down).
+		var near Decimal
+		if err := near.setNearOne(cp, x.Negative); err != nil {
+			return 0, err
+		}
+		return c.inexactResult(res | c.round(d, &near))
 	}
 
 	// Stage 2
@@ -1155,6 +1163,26 @@ func (c *Context) Exp(d, x *Decimal) (Condition, error) {
 	nc.Precision = c.Precision
 	res |= nc.round(d, d)
 	return c.inexactResult(res)
+}
+
+// setNearOne sets d to 1 with a sticky digit two places beyond p digits, just
+// below 1 or just above it: a stand-in for a value known to differ from 1 by
+// less than a unit of the p-th digit, for a later rounding to decide on.
+func (d *Decimal) setNearOne(p uint32, below bool) error {
+	var tmp BigInt
+	one, err := exp10(int64(p)+2, &tmp)
+	if err != nil {
+		return fmt.Errorf("exp10: %w", err)
+	}
+	d.Form = Finite
+	d.Negative = false
+	if below {
+		d.Coeff.Sub(one, bigOne)
+	} else {
+		d.Coeff.Add(one, bigOne)
+	}
+	d.Exponent = -int32(p) - 2
+	return nil
 }
 
 // expLarge computes e**x for |x| beyond the reach of Exp's series by reducing
@@ -1232,6 +1260,11 @@ func (c *Context) expLarge(d, x *Decimal) (bool, Condition, error) {
 		}
 		t.Exponent += int32(k)
 		res |= c.round(d, &t)
+		if int64(er.Exponent)+er.NumDigits()-1+k < int64(c.MinExponent) {
+			// Subnormal is decided before rounding; the first rounding may
+			// have carried the value up to 10**MinExponent.
+			res |= Subnormal
+		}
 	}
 	res, err = c.inexactResult(res)
 	return true, res, err
